@@ -96,7 +96,7 @@ type Define struct {
 
 type Guard struct {
 	LockField string
-	Addr      bool   // the lock is the embedded mutex field itself (else: the field holds a *sync.Mutex)
+	Addr      bool // the lock is the embedded mutex field itself (else: the field holds a *sync.Mutex)
 	Prop      string
 }
 
@@ -119,7 +119,7 @@ type SpecDB struct {
 	Lemmas     []Clause
 	Binds      []Binds
 	Files      []string
-	Immutable  map[string]bool // "pkg.T.f" fields assumed never written after construction
+	Immutable  map[string]bool  // "pkg.T.f" fields assumed never written after construction
 	Guards     map[string]Guard // "pkg.T.f" -> lock that must be held when the field is read or written
 }
 
